@@ -24,7 +24,7 @@ case "$cmd" in
     rm -rf "$S/out/known_findings.d"; cp -r "$VERIF/known_findings.d" "$S/out/" 2>/dev/null || true
     [ -d "$VERIF/stages" ] && { rm -rf "$S/out/stages"; cp -r "$VERIF/stages" "$S/out/"; }
     cp "$VERIF/check" "$S/out/check"
-    VERIF_ROOT="$S/out" VERIF_HARNESS="$S/harness" CARGO_TARGET_DIR="$S/target" "$S/out/check" "$@"
+    VERIF_REPO="$S/repo" VERIF_ROOT="$S/out" VERIF_HARNESS="$S/harness" CARGO_TARGET_DIR="$S/target" "$S/out/check" "$@"
     ;;
   test)
     (cd "$S/repo" && CARGO_TARGET_DIR="$S/repo-target" cargo test --offline "$@")
